@@ -10,6 +10,18 @@ import (
 )
 
 func (r *run) viol(prop, inv, sig, format string, a ...interface{}) {
+	if r.sc.Profile == "witness" && r.cur != nil {
+		// C05: the traffic of the witness connections must stay exact whatever
+		// the attackers do; what the general oracles find on a witness
+		// connection is a C05 violation in this profile
+		switch prop {
+		case "C01", "C02", "C07", "C08", "C17", "C19":
+			if r.sc.Clients[r.cur.Client].Role == "witness" {
+				sig = "C05/witness/" + sig
+				prop = "C05"
+			}
+		}
+	}
 	r.out.Add(prop, inv, sig, fmt.Sprintf(format, a...))
 }
 
@@ -64,6 +76,7 @@ func judge(r *run, res *simrt.Result) {
 	r.checkRetained(m)
 	r.checkReceiver(m)
 	r.checkSessions(m)
+	r.checkConnect(m)
 	r.relabel()
 }
 
@@ -79,8 +92,8 @@ func (r *run) relabel() {
 		from, to = []string{"C01"}, "C07"
 	case "session":
 		from, to = []string{"C01"}, "C10"
-	case "witness":
-		from, to = []string{"C01", "C17", "C02", "C07", "C19"}, "C05"
+	case "connect":
+		from, to = []string{"C01", "C08", "C10"}, "C11"
 	}
 	if to == "" {
 		return
@@ -112,7 +125,9 @@ func trim(s string, n int) string {
 // ---------------------------------------------------------------- C17 framing
 
 func (r *run) checkFraming(m *Model) {
+	defer func() { r.cur = nil }()
 	for _, c := range m.H.Conns {
+		r.cur = c
 		if c.DownErr != nil {
 			r.viol("C17", "strict-parse", "C17/malformed-output/"+errClass(c.DownErr), "the broker wrote bytes that are not a sequence of well-formed MQTT packets on connection %d (client %d): %v; %d packets parsed before", c.Idx, c.Client, c.DownErr, len(c.Down))
 		}
@@ -168,7 +183,9 @@ func validTopicName(t string) bool {
 
 func (r *run) checkResponses(m *Model) {
 	maxq := m.H.Script.Knobs.MaxQoS
+	defer func() { r.cur = nil }()
 	for _, c := range m.H.Conns {
+		r.cur = c
 		if !accepted(c) {
 			continue
 		}
@@ -326,10 +343,12 @@ func (r *run) checkRouting(m *Model) {
 		grantsBy[k] = append(grantsBy[k], g)
 	}
 	delivBy := map[string][]*Delivery{}
+	defer func() { r.cur = nil }()
 	for _, d := range m.Deliv {
 		if d.Retain {
 			continue // retained deliveries: C08
 		}
+		r.cur = d.C
 		if !d.Intact {
 			r.viol("C01", "payload-intact", "C01/corrupt-delivery", "%s received a PUBLISH on %q whose payload (%d bytes) is not byte-identical to any published message (claims source %d seq %d)", subscriberName(d.C, d.CB), d.Topic, len(d.Payload), d.Src, d.Seq)
 			continue
@@ -344,6 +363,7 @@ func (r *run) checkRouting(m *Model) {
 	for _, k := range keys {
 		if len(byKey[k]) == 0 {
 			d := delivBy[k][0]
+			r.cur = d.C
 			if d.Src >= srcWill && d.Src < srcInproc {
 				cause := "?"
 				for _, c := range m.H.Conns {
@@ -396,6 +416,7 @@ func (r *run) checkRouting(m *Model) {
 			prop = "C09"
 		}
 		for _, sk := range subs {
+			r.cur = sk.c
 			var copies []*Delivery
 			for _, d := range delivBy[p.Key] {
 				if d.C == sk.c && d.CB == sk.cb {
@@ -594,6 +615,7 @@ func (r *run) checkOrder(m *Model) {
 		q     byte
 	}
 	last := map[ok]int{}
+	defer func() { r.cur = nil }()
 	for _, d := range m.Deliv {
 		if d.Retain || !d.Intact || len(d.Payload) == 0 || multi[d.Key] {
 			continue
@@ -603,6 +625,7 @@ func (r *run) checkOrder(m *Model) {
 			continue
 		}
 		k := ok{subKey{d.C, d.CB}, d.Src, pubConn[d.Key], d.Topic, q}
+		r.cur = d.C
 		if prev, seen := last[k]; seen && d.Seq < prev {
 			r.viol("C17", "publisher-order", "C17/out-of-order", "%s received message seq %d after seq %d from publisher %d on topic %q (publish QoS %d)", subscriberName(d.C, d.CB), d.Seq, prev, d.Src, d.Topic, q)
 		}
@@ -705,6 +728,9 @@ func (r *run) checkInnocent(m *Model) {
 		}
 		if ok, _ := r.wellBehaved(c); !ok {
 			continue
+		}
+		if m.EndCause(c) == "disconnect" {
+			continue // the client asked for it
 		}
 		// keep-alive: silence of at least the negotiated keep-alive justifies it
 		ka := int64(c.Up[0].P.KeepAlive)
@@ -818,7 +844,9 @@ func (r *run) checkRetained(m *Model) {
 		topicsSorted = append(topicsSorted, t)
 	}
 	sort.Strings(topicsSorted)
+	defer func() { r.cur = nil }()
 	for _, sr := range reqs {
+		r.cur = sr.c
 		used := map[*Delivery]bool{}
 		for _, t := range topicsSorted {
 			var fq []byte // granted QoS of the request's filters matching t
@@ -993,6 +1021,7 @@ func (r *run) checkReceiver(m *Model) {
 				continue
 			}
 			g := match[0]
+			r.cur = sk.c
 			must, may := 0, 0
 			covered := true
 			var latest int64
@@ -1142,4 +1171,158 @@ func (m *Model) racedIDs() map[string]bool {
 		last[id] = c
 	}
 	return out
+}
+
+// ---------------------------------------------------------------- C11 nothing before a valid CONNECT
+
+func validIDChars(id string) bool {
+	for i := 0; i < len(id); i++ {
+		c := id[i]
+		if !(c >= '0' && c <= '9' || c >= 'a' && c <= 'z' || c >= 'A' && c <= 'Z') {
+			return false
+		}
+	}
+	return true
+}
+
+// expectConnect returns the set of acceptable outcomes for the first packet p
+// of a connection (from the MQTT 3.1.1 text): CONNACK codes, and whether a
+// plain close without CONNACK is acceptable too.
+func (r *run) expectConnect(p *refmqtt.Packet) (codes map[byte]bool, plainClose bool, why string) {
+	codes = map[byte]bool{}
+	// protocol name / level
+	switch {
+	case p.ProtoName == "MQTT" && p.ProtoLevel == 4, p.ProtoName == "MQIsdp" && p.ProtoLevel == 3:
+	case p.ProtoName == "MQTT" || p.ProtoName == "MQIsdp":
+		codes[1] = true
+		why += "unsupported protocol level; "
+	default:
+		codes[1] = true
+		plainClose = true
+		why += "wrong protocol name; "
+	}
+	id := p.ClientID
+	switch {
+	case id == "" && !p.CleanSession:
+		codes[2] = true
+		why += "empty identifier with CleanSession=0; "
+	case id == "" || len(id) > 23 || !validIDChars(id):
+		// the server may accept or refuse these
+		codes[2] = true
+		if len(codes) == 1 {
+			codes[0] = true
+		}
+		why += "identifier the server may refuse; "
+	}
+	// credentials
+	rejected := false
+	switch r.sc.Knobs.Authenticator {
+	case "mockFailure":
+		rejected = true
+	case "verifPass":
+		rejected = !(p.HasPass && string(p.Pass) == "secret-"+p.User)
+	}
+	if rejected {
+		codes[4] = true
+		delete(codes, 0)
+		why += "credentials rejected; "
+	}
+	if len(codes) == 0 {
+		codes[0] = true
+		why = "acceptable CONNECT"
+	}
+	return codes, plainClose, why
+}
+
+func (r *run) checkConnect(m *Model) {
+	h := m.H
+	for _, c := range h.Conns {
+		if len(c.Up) == 0 && c.UpErr == nil && c.upS.Pending() == 0 {
+			continue // nothing was sent
+		}
+		var first *refmqtt.Packet
+		if len(c.Up) > 0 {
+			first = c.Up[0].P
+		}
+		var ack *refmqtt.Packet
+		nonAck := 0
+		for i, w := range c.Down {
+			if i == 0 && w.P.Type == refmqtt.CONNACK {
+				ack = w.P
+			} else {
+				nonAck++
+			}
+		}
+		closedByBroker := c.Dead && !c.ClientEnded
+		// strictly well-formed CONNECT first?
+		wellFormed := false
+		if first != nil && first.Type == refmqtt.CONNECT {
+			if _, _, err := refmqtt.Parse(first.Raw); err == nil {
+				wellFormed = true
+			}
+		}
+		class := "not-connect"
+		if first != nil && first.Type == refmqtt.CONNECT {
+			class = "malformed-connect"
+		}
+		if !wellFormed {
+			// any other first packet or a malformed CONNECT: must be closed,
+			// must not be accepted, must not get anything but an optional CONNACK
+			if ack != nil && ack.Code == 0 {
+				r.viol("C11", "first-packet", "C11/accepted/"+class, "connection %d sent %s as its first packet and was accepted with CONNACK code 0", c.Idx, describeFirst(c))
+			}
+			if nonAck > 0 {
+				r.viol("C11", "no-effect-before-connect", "C11/packets-sent-to-unaccepted/"+class, "connection %d was never accepted but the broker sent it %d packet(s) besides CONNACK, e.g. %s", c.Idx, nonAck, c.Down[len(c.Down)-1].P)
+			}
+			if !closedByBroker && !c.ClientEnded {
+				r.viol("C11", "closed", "C11/not-closed/"+class, "connection %d sent %s as its first packet and was still open at the end", c.Idx, describeFirst(c))
+			} else if !closedByBroker && c.EndKind == "final" {
+				r.viol("C11", "closed", "C11/not-closed/"+class, "connection %d sent %s as its first packet and the broker never closed it (still open when the run ended, %.1f virtual seconds later)", c.Idx, describeFirst(c), float64(c.EndVT-c.OpenVT)/1e9)
+			}
+			continue
+		}
+		codes, plain, why := r.expectConnect(first)
+		got := "none"
+		if ack != nil {
+			got = fmt.Sprint(ack.Code)
+		}
+		switch {
+		case ack == nil:
+			if c.ClientEnded && c.EndKind != "final" {
+				continue // the client left before the answer
+			}
+			if !(plain && closedByBroker) {
+				r.viol("C11", "connack-code", "C11/no-connack/"+codeSet(codes), "connection %d sent a well-formed CONNECT (%s: %s) and got no CONNACK (closed by broker: %v); acceptable codes %s", c.Idx, first, why, closedByBroker, codeSet(codes))
+			}
+		case !codes[ack.Code]:
+			r.viol("C11", "connack-code", "C11/wrong-code/want"+codeSet(codes)+"-got"+got, "connection %d: CONNECT %s (%s) was answered with CONNACK code %d; acceptable: %s", c.Idx, first, why, ack.Code, codeSet(codes))
+		}
+		if ack != nil && ack.Code != 0 {
+			if nonAck > 0 {
+				r.viol("C11", "no-effect-before-connect", "C11/packets-sent-to-unaccepted/refused", "connection %d was refused with code %d but the broker sent it %d further packet(s)", c.Idx, ack.Code, nonAck)
+			}
+			if !closedByBroker && (!c.ClientEnded || c.EndKind == "final") {
+				r.viol("C11", "closed", "C11/not-closed/refused", "connection %d was refused with CONNACK code %d but the broker did not close it", c.Idx, ack.Code)
+			}
+		}
+	}
+}
+
+func codeSet(m map[byte]bool) string {
+	var ks []int
+	for k := range m {
+		ks = append(ks, int(k))
+	}
+	sort.Ints(ks)
+	return strings.ReplaceAll(strings.Trim(fmt.Sprint(ks), "[]"), " ", "or")
+}
+
+func describeFirst(c *Conn) string {
+	if len(c.Up) > 0 {
+		return c.Up[0].P.String()
+	}
+	if c.UpErr != nil {
+		return "bytes that are no MQTT packet (" + errClass(c.UpErr) + ")"
+	}
+	return fmt.Sprintf("an incomplete packet (%d bytes)", c.upS.Pending())
 }
